@@ -79,7 +79,7 @@ ShowExpr(e) ==
     [] e.k = "arr" -> NameCp(e) \o <<40>> \o ShowList(e.sub, 1) \o <<41>>
     [] e.k = "un"  -> (CASE e.op = "neg" -> <<45>> [] e.op = "pos" -> <<43>> [] e.op = "not" -> T_NOT \o SP) \o ShowExpr(e.a)
     [] e.k = "bin" -> ShowExpr(e.a) \o OpText(e.op) \o ShowExpr(e.b)
-    [] e.k = "call" -> NameCp(e) \o <<40>> \o ShowList(e.args, 1) \o <<41>>
+    [] e.k = "call" -> IF e.args = <<>> THEN NameCp(e) ELSE NameCp(e) \o <<40>> \o ShowList(e.args, 1) \o <<41>>
     [] e.k = "fn" -> NameCp(e) \o <<40>> \o ShowList(e.args, 1) \o <<41>>
 ShowList(es, i) == IF i > Len(es) THEN <<>>
                    ELSE ShowExpr(es[i]) \o (IF i < Len(es) THEN <<44>> ELSE <<>>) \o ShowList(es, i + 1)
